@@ -674,7 +674,7 @@ def main():
         "C16": "one case = one generated well-typed program checked step by step against the exact integer model; distinct = distinct program hash; non-trivial = contains at least one DFT-space step",
         "C18": "one case = one generated program with every source operand mapped read-only for the duration of each call and objects frozen; distinct = distinct program hash; non-trivial = at least one read-only mapping was applied (or a concurrent world with frozen shared objects)",
     }[prop]
-    fault_kinds = {k: v for k, v in agg.items() if k.startswith(("fill_", "off", "ro_mappings", "exact_extent", "adjacent_buffers", "address_reuse", "fpenv_checks", "switches", "window_", "life_windows", "maskA=", "policy=", "start_state", "lock_waits", "fresh_twins", "cache_collisions", "repeats", "column_group", "drd_"))}
+    fault_kinds = {k: v for k, v in agg.items() if k.startswith(("fill_", "off", "ro_mappings", "exact_extent", "adjacent_buffers", "address_reuse", "fpenv_checks", "switches", "window_", "life_windows", "maskA=", "policy=", "start_state", "lock_waits", "fresh_twins", "cache_collisions", "repeats", "column_group", "drd_", "scratch_reused"))}
     evidence = {
         "property_id": prop,
         "tier": tier,
